@@ -117,6 +117,8 @@ def run(chk, replay=None):
                             "around port numbers and acceptance of invalid hash forms are drift",
                             "hash halves are compared up to letter case; white space = TAB LF VT FF CR SPACE",
                             "addresses, ports and hash strings outside the enumerated structure are sampled (seeded), not exhausted"]
+        # ---- the same entry points called by 8 goroutines at once (race-detector build): results as when called alone
+        vlib.parallel_callers(chk, "ip")
     finally:
         if jopt is None:
             os.environ.pop("_JAVA_OPTIONS", None)
